@@ -180,16 +180,17 @@ fn script(c: &Case, w: &mut World) -> Vec<Mark> {
             let _ = w.write(ino, h, &DATA[..len], off, rf);
             m.push(Mark { idx: w.last(), kind: Kind::Main { within, strict_errno: true }, op: "write" });
             if !no_open {
-                let _ = w.getattr(ino, Some(h));
+                let r = w.getattr(ino, Some(h));
                 if opened {
                     m.push(Mark { idx: w.last(), kind: Kind::Alive, op: "write" });
+                    w.poisoned |= r == Err(libc::EBADF);
                 }
             }
             let _ = w.write(ino, h, &b"Q"[..size.min(1)], 0, acc);
             if !trunc {
                 m.push(Mark { idx: w.last(), kind: Kind::Probe, op: "write" });
             }
-            if !no_open {
+            if !no_open && !w.poisoned {
                 let _ = w.release(ino, h);
             }
             w.forget(ino, 1);
@@ -246,13 +247,16 @@ fn script(c: &Case, w: &mut World) -> Vec<Mark> {
             let _ = w.fallocate(ino, h, mode, off, len);
             m.push(Mark { idx: w.last(), kind: Kind::Main { within: off + len <= size as u64, strict_errno: false }, op: "fallocate" });
             if !no_open {
-                let _ = w.getattr(ino, Some(h));
+                let r = w.getattr(ino, Some(h));
                 if opened {
                     m.push(Mark { idx: w.last(), kind: Kind::Alive, op: "fallocate" });
+                    w.poisoned |= r == Err(libc::EBADF);
                 }
                 let _ = w.write(ino, h, &b"Q"[..size.min(1)], 0, libc::O_RDWR);
                 m.push(Mark { idx: w.last(), kind: Kind::Probe, op: "fallocate" });
-                let _ = w.release(ino, h);
+                if !w.poisoned {
+                    let _ = w.release(ino, h);
+                }
             }
             w.forget(ino, 1);
         }
@@ -282,11 +286,13 @@ pub fn run(cx: &mut Cx) {
             let no = c.no_open();
             let Some(mut sealed) = cx.world(&nodes, Cfg { seal: true, no_open: no, ..Default::default() }) else { return };
             let Some(mut twin) = cx.world_lane(&nodes, Cfg { seal: false, no_open: no, ..Default::default() }, 1) else { return };
+            sealed.watch_files(&["f", "g"]);
+            twin.watch_files(&["f", "g"]);
             let marks = script(&c, &mut sealed);
             let _ = script(&c, &mut twin);
             cx.account(&sealed, &label);
             cx.rep.cases += twin.trace.len() as u64;
-            if sealed.trace.len() != twin.trace.len() {
+            if sealed.trace.len() != twin.trace.len() && !sealed.poisoned {
                 cx.tool_error(format!("[{}] sealed and twin scripts differ in length", label));
                 return;
             }
@@ -392,6 +398,12 @@ pub fn run(cx: &mut Cx) {
                         );
                     }
                 }
+            }
+            if sealed.poisoned {
+                std::mem::forget(sealed);
+            }
+            if twin.poisoned {
+                std::mem::forget(twin);
             }
         });
     }
